@@ -721,6 +721,12 @@ class Function(dd._abc.Operator):
             ) -> int:
         return self.node
 
+    def __copy__(
+            self
+            ) -> 'Function':
+        """Return another reference to the same node."""
+        return Function(self.node, self.bdd)
+
     def to_expr(
             self
             ) -> _Formula:
